@@ -57,7 +57,7 @@ func C09Worlds(c *Ctx, sz sizes) ([]*World, error) {
 	}
 	for i := 0; i < sz.templates*3; i++ {
 		r := c.Rng("c09-layout-world", i)
-		spec := DrawLayout(r, 1+r.IntN(4), LayoutOpts{UserPkgs: true, Guarded: true, CustomTags: true, GuardedUser: true})
+		spec := DrawLayout(r, 1+r.IntN(4), LayoutOpts{UserPkgs: true, Guarded: true, CustomTags: true, GuardedUser: true, Symlinks: true})
 		if hasPathConflict(spec) {
 			continue
 		}
@@ -191,7 +191,7 @@ func CheckC09(c *Ctx) (*Outcome, error) {
 	hmk := func(i int) ([]*History, error) {
 		rng := c.Rng("c09-history", i)
 		h := DrawHistory(c, rng, HistoryOpts{MaxSteps: 4, Faults: true, Corrupt: true, Relocate: true, EnvVariants: true, RandomOrder: true, TornHeader: rng.IntN(2) == 0,
-			Layout: LayoutOpts{UserPkgs: true, Guarded: true, CustomTags: true, GuardedUser: true}})
+			Layout: LayoutOpts{UserPkgs: true, Guarded: true, CustomTags: true, GuardedUser: true, Symlinks: true}})
 		if i < 4 {
 			c.Stats.Sample(map[string]any{"history_ops": DescribeOps(h)}, 10)
 		}
